@@ -20,6 +20,9 @@ def seeds(work, tier):
     out = []
     text = gen.text_log([(E * 1000 + 500 + 1000 * i, b"seed message %d" % i, [b"  continuation"] if i == 1 else []) for i in range(3)])
     out.append(("text", "s.log", text, list(range(0, min(64, len(text))))))
+    # a log whose stamps carry no year (the year is inferred walking backwards from the end)
+    yl = b"".join(b"Mar  %d 00:00:0%d host prog[%d]: yearless message %d\n" % (1 + i // 3, i % 3, 100 + i, i) for i in range(7))
+    out.append(("text.yearless", "y.log", yl, list(range(0, 24))))
     ut = gen.utmp_file([(E + 1, 0, b"A"), (E + 2, 5, b"B")])
     out.append(("utmp", "wtmp", ut, list(range(0, 8)) + list(range(384, 392)) + list(range(340, 348))))
     for lid in ("linux_x86_lastlog", "linux_x86_acct", "linux_x86_acct_v3", "netbsd_x8664_utmp", "openbsd_x86_utmp", "freebsd_x8664_utmpx"):
@@ -53,6 +56,7 @@ def seeds(work, tier):
     return out
 
 
+JUNK_PRE = [b"garbage first line\n", b"\n", b"x" * 100 + b"\n", b"\x00\x00\x00\n", b"partial line without its beginning 12:34\n"]
 JUNK = [b"\x00", b"\n", b"\xff" * 8, b"x" * 16, b"\x00" * 512, b"\x00" * 4096, bytes(range(256)), "self", "bigger-member"]
 
 
@@ -124,6 +128,12 @@ def run(tier, seed, build=True):
                 continue
             for j in range(len(JUNK)):
                 cases.append((label, "append", fname, ("append", j)))
+        # bytes in front of a complete file: a line without a timestamp, an empty line, a long filler line, NULs
+        for label, fname, data, offs in sd:
+            if len(data) > 200000 and tier == "quick":
+                continue
+            for j in range(len(JUNK_PRE)):
+                cases.append((label, "prepend", fname, ("prepend", j)))
         # every seed under every other type-selecting name
         names = sorted({fname for _, fname, _, _ in sd} | {"x.journal.xz", "x.evtx.bz2", "lastlogx", "acct.1.gz", "x.tar"})
         for label, fname, data, offs in sd:
@@ -155,6 +165,8 @@ def run(tier, seed, build=True):
                 return data
             if spec[0] == "trunc":
                 return data[:spec[1]]
+            if spec[0] == "prepend":
+                return JUNK_PRE[spec[1]] + data
             if spec[0] == "append":
                 j = JUNK[spec[1]]
                 if j == "self":
@@ -191,7 +203,8 @@ def run(tier, seed, build=True):
             tmpd = os.path.join(d, "tmp")
             os.makedirs(tmpd)
             env = {"TMPDIR": tmpd}
-            r1 = common.run_s4(["--color", "never", "-t", "+00:00", fname], cwd=d, timeout=20, env=env)
+            # alone: with --summary (the summary of a source that failed is code of its own); beside a valid source: without
+            r1 = common.run_s4(["--color", "never", "-s", "-t", "+00:00", fname], cwd=d, timeout=20, env=env)
             r2 = common.run_s4(["--color", "never", "-t", "+00:00", fname, "n.log"], cwd=d, timeout=20, env=env)
             shutil.rmtree(d, ignore_errors=True)
             return ic, r1, r2, len(blob), big
@@ -208,7 +221,7 @@ def run(tier, seed, build=True):
             feats = {"seed": label, "fault": kind, "name": fname}
             desc = "%s %s %s as %s" % (label, kind, spec[1:] if spec[0] != "raw" else spec[1].hex(), fname)
             rep = {"engine": "E-FAULT", "seed": label, "fault": list(spec) if spec[0] != "raw" else ["raw", spec[1].hex()], "name": fname}
-            judge(res, feats, desc + " (alone)", r1, dict(rep, args=["--color", "never", "-t", "+00:00", fname]), False)
+            judge(res, feats, desc + " (alone, --summary)", r1, dict(rep, args=["--color", "never", "-s", "-t", "+00:00", fname]), False)
             judge(res, feats, desc + " (beside a valid source)", r2, dict(rep, args=["--color", "never", "-t", "+00:00", fname, "n.log"]), True)
             if kind == "seed" and r1.out:
                 nseed_ok += 1
